@@ -421,8 +421,8 @@ def _ifthenelse(run, P):
                     and isinstance(n.test.left, ast.Attribute) and n.test.left.attr == "condition":
                 hit = n
         ok = False
-        if hit is not None and hit.body and isinstance(hit.body[0], ast.Return):
-            v = hit.body[0].value
+        if hit is not None and hit.body and isinstance(hit.body[-1], ast.Return):
+            v = hit.body[-1].value
             ok = isinstance(v, ast.Call) and dotted(v.func) == "self.rec" and \
                 isinstance(v.args[0], ast.Attribute) and v.args[0].attr == attr
         run.ob("C06.const", f, hit if hit is not None else f.node, ok,
@@ -450,7 +450,9 @@ def _ifthenelse(run, P):
             v = [dotted(e) for e in s.value.elts]
             if t == v[::-1] and set(t) == {v_then, v_else}:
                 swaps.append(s)
-    ok = cv == v_cond and len(strips) == 1 and len(swaps) == 1 and len(lp.body) == 2
+    from .util import core
+    lb = core(lp.body, lambda s_: any(s_ is x for x in strips + swaps))
+    ok = cv == v_cond and len(strips) == 1 and len(swaps) == 1 and len(lb) == 2
     run.ob("C06.neg", f, lp, ok,
            construct=f"while isinstance({cv}, LogicalNot): strip x{len(strips)}, swap x{len(swaps)}",
            why="stripping a negation without swapping the arms (or swapping twice) "
